@@ -1366,8 +1366,16 @@ def gen_curl_argv(rng, port):
     argv = ["curl"]
     if rng.random() < 0.8:
         argv += [rng.choice(["-X", "--request"]), rng.choice(["GET", "POST", "PUT", "PATCH", "QUERY", "get"])]
+    names = set()
     for _ in range(rng.choice([0, 1, 2, 3])):
-        argv += [rng.choice(["-H", "--header"]), rng.choice(CURL_HEADER_TEXTS)]
+        flag, text = rng.choice(["-H", "--header"]), rng.choice(CURL_HEADER_TEXTS)
+        # one field per name: the commands under test are built from a request's header mapping and never repeat a name
+        # (what curl does with a repeated name depends on the name: a second custom `Host` is dropped, others are sent twice)
+        nm = text.split(":", 1)[0].split(";", 1)[0].strip().lower()
+        if nm in names:
+            continue
+        names.add(nm)
+        argv += [flag, text]
     for _ in range(rng.choice([0, 0, 1, 1, 2])):
         argv += [rng.choice(["-d", "--data", "--data-ascii", "--data-raw"]), rng.choice(CURL_DATA)]
     if rng.random() < 0.3:
